@@ -72,6 +72,12 @@ type c09Side struct {
 	wrDone    bool
 	bursts    int
 	checked   int
+	// seedDone, if set, reports whether this side has finished processing the
+	// peer's seed frame; seedIdx is the index (in under.Writes) of the first wire
+	// write issued after that, -1 until there is one
+	seedDone func() bool
+	seedIdx  int
+	lateChk  int
 }
 
 func (sd *c09Side) run(c *harness.Ctx, ending *bool, dir int) {
@@ -101,6 +107,9 @@ func (sd *c09Side) run(c *harness.Ctx, ending *bool, dir int) {
 		sd.under.OnWrite = func(p []byte) {
 			wireWrites++
 			wireBytes += len(p)
+			if sd.seedDone != nil && sd.seedIdx < 0 && sd.seedDone() {
+				sd.seedIdx = len(sd.under.Writes) - 1
+			}
 			// everything a terminating Write can need is the payload frames plus a
 			// few padding rounds of at most two segments each
 			if limit := 8 * (size + 21*((size+1426)/1427) + 3000); wireBytes > limit && wireBytes-len(p) <= limit {
@@ -146,6 +155,22 @@ func (sd *c09Side) run(c *harness.Ctx, ending *bool, dir int) {
 			c.Feature("iat0-burst-in-several-writes")
 		}
 		if !constrained {
+			// the seed frame was processed while this Write was running: the
+			// lengths it samples from then on are the bridge's.  (The write at
+			// seedIdx may have been sampled just before.)
+			if sd.iat == 2 && sd.seedIdx >= 0 {
+				for i := sd.seedIdx + 1; i < len(sd.under.Writes); i++ {
+					if i < before {
+						continue
+					}
+					x := sd.under.Writes[i]
+					sd.lateChk++
+					if !(inT[x.N] && x.N != 0) && !(has0 && x.N == 1448) {
+						c.Violate("C09/paranoid-write-not-sampled", "%s iat-mode 2: the seed frame had been processed before wire write %d of this connection was issued, yet wire write %d (of a Write of %d bytes that began before the seed arrived) has %d bytes: not a non-zero length of the bridge's table %v", sd.name, sd.seedIdx, i, w.Size, x.N, sortedInts(sd.table))
+						return
+					}
+				}
+			}
 			continue
 		}
 		sd.checked++
@@ -381,8 +406,8 @@ func runC09(c *harness.Ctx) {
 		return out
 	}
 	var clientGot int64 // bytes the client application has received from the server
-	cs := &c09Side{name: "c", under: link.A, plan: directed("cw", 5), iat: iat, table: T}
-	ss := &c09Side{name: "s", under: link.B, plan: directed("sw", 5), iat: iat, table: T, checkFrom: func() bool { return true }}
+	cs := &c09Side{name: "c", under: link.A, plan: directed("cw", 5), iat: iat, table: T, seedIdx: -1}
+	ss := &c09Side{name: "s", under: link.B, plan: directed("sw", 5), iat: iat, table: T, seedIdx: -1, checkFrom: func() bool { return true }}
 	if iat == 0 && t.Draw("huge", 8) == 7 {
 		// one very large write whose encoded length lands around a power of two
 		// (64 KiB .. 1 MiB of wire bytes): where buffers are flushed or grown
@@ -420,6 +445,17 @@ func runC09(c *harness.Ctx) {
 			cs.plan = []writePlan{{Size: 1 + t.Draw("late-seed.sz", 3000)}}
 		}
 		cs.plan[0].PauseMs = holdMs
+		if iat == 2 && t.Draw("late-seed.long", 2) == 1 {
+			// ... or starts a little earlier and is long enough (a wire write and a
+			// sleep of up to 10 ms per sampled length) to be running when it arrives
+			cs.plan[0].Size = 3000 + t.Draw("late-seed.lsz", 15000)
+			early := holdMs
+			if early > 12 {
+				early = 12
+			}
+			cs.plan[0].PauseMs = holdMs - t.Draw("late-seed.early", early+1)
+			c.Feature("seed-frame-arrives-during-paranoid-write")
+		}
 		link.BA.Filter = func(off int64, p []byte) []byte {
 			if off == 0 && len(p) > 45 {
 				link.BA.AddFaultLocked(simnet.Fault{Kind: simnet.FaultStall, Offset: int64(len(p) - 45), Dur: hold})
@@ -429,6 +465,19 @@ func runC09(c *harness.Ctx) {
 		c.Feature("seed-frame-arrives-late")
 	}
 	var cUp, sUp bool
+	// The client has processed the seed frame once (a) Dial has returned, (b) a
+	// read of its obfs4 connection has taken the last byte of the bridge's
+	// first write off the wire - whatever Dial left buffered is decoded along
+	// with it - and (c) that reader has come back for more.
+	var rdCum int64
+	seedRead := -1
+	link.A.OnRead = func(p []byte) {
+		rdCum += int64(len(p))
+		if seedRead < 0 && cUp && len(link.B.Writes) > 0 && rdCum >= int64(link.B.Writes[0].N) {
+			seedRead = link.A.ReadCalls
+		}
+	}
+	cs.seedDone = func() bool { return seedRead >= 0 && link.A.ReadCalls > seedRead }
 	c.S.Go("s/accept", func() {
 		conn, err := sf.WrapConn(link.B)
 		if err != nil {
@@ -490,6 +539,9 @@ func runC09(c *harness.Ctx) {
 	c.Nontrivial = cs.checked+ss.checked > 0
 	if cs.checked > 0 {
 		c.Feature("client-burst-checked-against-server-table")
+	}
+	if cs.lateChk > 0 {
+		c.Feature("client-wire-writes-checked-after-seed-arrived-mid-write")
 	}
 	if stop == sim.StopTime && !c.S.Violated() {
 		c.Violate("C09/write-never-returned", "after 20 virtual minutes a Write is still in progress (client done %v, server done %v; blocked: %v)", cs.wrDone, ss.wrDone, c.S.LiveTasks())
